@@ -97,7 +97,7 @@ def compile_and_run(ctx, objdir, src, target, name, runtime):
         os.unlink(os.path.join(ctx.scratch, name + ".il.c"))
     except OSError:
         pass
-    if rc == 99 or rc < 0:
+    if rc == il2c.ASAN_RC or rc < 0:
         return ("run", "native run of IL: rc=%s %s" % (rc, se[:600]), so.split(), out)
     return ("ok", rc, so.split(), out)
 
